@@ -23,6 +23,41 @@ theorem ellipseCircle_eq :
       Welzl.ellipseCircle center a b := by
   first | rfl | simp [Src.CurvedGen.ellipseCircle, Welzl.ellipseCircle]
 
+/-- `GeoRing.bounds`: the corner destinations of the circle `(centre, outer_radius)` for a full turn, else the min / max
+    of the generated vertices (`zip(*…)`, `min`, `max`: none of the `ValueError`s is reachable — the generated ring is
+    never empty —, so the result is always `.ok`) -/
+theorem ringBounds_eq (rnd : α → α) (R : α) :
+    Src.CurvedGen.ringBounds (destination rnd R) (destinationDeg rnd R) center radius a b rotDeg inner outer amin amax () =
+      match ringBounds rnd R center inner outer amin amax with
+      | some bb => .ok bb
+      | none => .error "ERR:Value" := by
+  simp only [Src.CurvedGen.ringBounds, C03SrcGen.wedgeRing_eq_model, ringBounds]
+  rcases Bool.eq_false_or_eq_true (Num.le (ofI 360) (amax - amin)) with h | h
+  · rw [if_pos h, if_pos h]; rfl
+  · rw [if_neg (by simp [h]), if_neg (by simp [h])]
+    generalize wedgeRing rnd R center inner outer amin amax 0 = l
+    cases l with
+    | nil => simp [vertexBounds, pyMin]
+    | cons p ps => simp [vertexBounds, pyMin, pyMax]
+
+/-- `GeoRing.bounds` never raises -/
+theorem ringBounds_ok (rnd : α → α) (R : α) :
+    ∃ bb, Src.CurvedGen.ringBounds (destination rnd R) (destinationDeg rnd R) center radius a b rotDeg inner outer amin amax ()
+      = .ok bb ∧ ringBounds rnd R center inner outer amin amax = some bb := by
+  have hsome : ∃ bb, ringBounds rnd R center inner outer amin amax = some bb := by
+    unfold ringBounds
+    split
+    · exact ⟨_, rfl⟩
+    · obtain ⟨t, ht⟩ := C03SrcGen.schedule_cons (kOr 0 (ringDefaultK amin amax))
+      have hne : ∃ p ps, wedgeRing rnd R center inner outer amin amax 0 = p :: ps := by
+        simp only [wedgeRing, wedgeRingOf, ringArcs, ringArcsWith, ht]
+        split <;> simp
+      obtain ⟨p, ps, hp⟩ := hne
+      rw [hp]
+      simp [vertexBounds, pyMin, pyMax]
+  obtain ⟨bb, hb⟩ := hsome
+  exact ⟨bb, by rw [ringBounds_eq, hb], hb⟩
+
 end generic
 
 section real
